@@ -2,12 +2,16 @@
 
 package main
 
-// C02 — commands, scoping and calls: generated bundles are compiled and
-// rendered by robfig/soy and by the Coq model of the tree walker (Interp.v)
-// on the dumped AST; output bytes and ok/error must agree.
+// C02 — commands, scoping and calls.  Generated bundles are compiled and
+// rendered by robfig/soy; the dumped AST is rendered by the Coq model of the
+// tree walker (Model/Interp.v: scope stack) and by the Coq Spec (Spec/Cmd.v:
+// lexical environments).  The property's oracle is "implementation output =
+// Spec output"; the model/implementation comparison is the correspondence that
+// ties Interp.v (about which exec_impl_spec is proved) to the Go code.
 
 import (
 	"encoding/hex"
+	"encoding/json"
 	"fmt"
 	"os"
 	"strings"
@@ -20,10 +24,24 @@ import (
 
 func init() { props["C02"] = runC02 }
 
+const c02Fuel = "#4000"
+
 func runC02(e *env) {
-	e.res.Rule = "bundles from the command grammar (depth<=3, 1-5 templates over 1-3 namespaces/files, soydoc or header params, optional params, all call forms, recursion on a decreasing int) x 2 data sets; rendered by robfig/soy and by the Coq tree-walker model on the dumped AST. Non-trivial = uses at least one of let/foreach/for/call/switch/if; distinct by source text + data."
-	n := 400 * e.scale
-	runProgCorrespondence(e, n, progOpts{depth: 3, directives: true}, "C02")
+	e.res.Rule = "bundles from the command grammar (nesting depth<=3, 1-6 templates over 1-3 namespaces and 1-6 files, soydoc or header params, optional params, relative / fully-qualified / aliased / name= call forms, both param syntaxes, data=all / data=$e / data=[map literal], params overriding passed data, recursion on a decreasing int, small name pool so that lets and loop variables shadow params and each other, scope probes) x 2 data sets satisfying the declared params; rendered by robfig/soy, by the Coq tree-walker model and by the Coq lexical-environment Spec on the dumped AST. Oracle: implementation output = Spec output (bytes, ok/error). Non-trivial = uses at least one of let/foreach/for/call/switch/if; distinct by source text + data."
+	if e.replay != "" {
+		c02Replay(e)
+		return
+	}
+	// two streams from one PRNG state: the historical C02 stream (shared generator defaults) and the scope stream
+	runProgCorrespondence(e, 600*e.scale, progOpts{depth: 3, directives: true}, "C02")
+	runProgCorrespondence(e, 1800*e.scale, progOpts{depth: 3, directives: true, scope: true}, "C02")
+	var hs []string
+	for _, k := range hx.SortedKeys(e.res.Histogram) {
+		if strings.HasPrefix(k, "feat:") {
+			hs = append(hs, fmt.Sprintf("%s=%d", k[5:], e.res.Histogram[k]))
+		}
+	}
+	e.res.Note("feature histogram (renders using the feature): %s", strings.Join(hs, " "))
 }
 
 type progCase struct {
@@ -32,84 +50,166 @@ type progCase struct {
 	Data     string    `json:"data"`
 }
 
-// runProgCorrespondence is shared by the template-level properties.
+var c02Reg int
+
+// runProgCorrespondence generates n bundles and checks each on its data sets.
 func runProgCorrespondence(e *env, n int, o progOpts, prop string) {
-	compileFail := 0
 	for i := 0; i < n; i++ {
 		files, entry, dataSets, feats := genBundle(e.rng, o)
-		b := soy.NewBundle()
-		for _, f := range files {
-			b.AddTemplateString(f.Name, f.Text)
+		c02Bundle(e, files, entry, dataSets, feats, i%57 == 0)
+	}
+}
+
+func c02Bundle(e *env, files []srcFile, entry string, dataSets []data.Map, feats map[string]int, sample bool) {
+	b := soy.NewBundle()
+	for _, f := range files {
+		b.AddTemplateString(f.Name, f.Text)
+	}
+	reg, err := b.Compile()
+	if err != nil {
+		e.res.Histogram["compile-errors"]++
+		e.res.Count(fmt.Sprint(files), false, "compile-error")
+		e.res.Fail(hx.Violation{Kind: "oracle", What: "a generated valid bundle is rejected by the compiler", Case: progCase{Files: files, Template: entry}, Observed: err.Error()}, "")
+		return
+	}
+	tofu := soyhtml.NewTofu(reg)
+	ids := newIDTable()
+	c02Reg++
+	key := fmt.Sprintf("reg%d", c02Reg)
+	rs := registrySexp(reg, ids)
+	if r := e.m.Call("load_registry", key, rs); len(r) == 0 || r[0] != "#1" {
+		e.res.Fail(hx.Violation{Kind: "mismatch", What: "model cannot load the registry", Case: progCase{Files: files, Template: entry}, Observed: fmt.Sprint(r)}, "")
+		return
+	}
+	if r := e.m.Call("load_registry_spec", key, rs); len(r) == 0 || r[0] != "#1" {
+		// exec_impl_spec assumes wf_registry; the parser must only produce such trees
+		e.res.Fail(hx.Violation{Kind: "mismatch", What: "the dumped AST is not of the shape exec_impl_spec assumes (wf_registry = false)", Case: progCase{Files: files, Template: entry}, Observed: fmt.Sprint(r)}, "")
+		return
+	}
+	nontrivial := feats["let"]+feats["foreach"]+feats["for-range"]+feats["call"]+feats["switch"]+feats["if"]+feats["let-content"] > 0
+	for _, d := range dataSets {
+		if os.Getenv("VERIF_TRACE") != "" {
+			fmt.Fprintf(os.Stderr, "CASE %v %v\n", files, d)
 		}
-		reg, err := b.Compile()
-		if err != nil {
-			compileFail++
-			e.res.Count(fmt.Sprint(files), false, "compile-error")
-			e.res.Fail(hx.Violation{Kind: "oracle", What: "a generated valid bundle is rejected by the compiler", Case: progCase{Files: files, Template: entry}, Observed: err.Error()}, "")
+		out, rerr := render(tofu, entry, d, nil)
+		dsx := valueSexp(d, ids)
+		e.res.Count(fmt.Sprint(files)+dsx, nontrivial, "render")
+		for f := range feats {
+			e.res.Histogram["feat:"+f]++
+		}
+		pc := progCase{Files: files, Template: entry, Data: dsx}
+		if sample {
+			e.res.Sample(map[string]interface{}{"files": files, "template": entry, "data": dsx, "output": hx.Q(out), "error": errStr(rerr)})
+		}
+		if isPanicErr(rerr) {
+			e.res.Fail(hx.Violation{Kind: "oracle", What: "panic escaped Render", Case: pc, Observed: errStr(rerr)}, "")
 			continue
 		}
-		tofu := soyhtml.NewTofu(reg)
-		ids := newIDTable()
-		key := fmt.Sprintf("reg%d", i)
-		if r := e.m.Call("load_registry", key, registrySexp(reg, ids)); len(r) == 0 || r[0] != "#1" {
-			e.res.Fail(hx.Violation{Kind: "mismatch", What: "model cannot load the registry", Case: progCase{Files: files, Template: entry}, Observed: fmt.Sprint(r)}, "")
+		// ---- the property's oracle: output = Spec output ----
+		if len(out) > 1<<20 {
+			// the extracted Spec concatenates byte lists with Coq's (non tail-recursive) app and exhausts the
+			// OCaml stack on a multi-megabyte output (nested content params inside loops); the model needs
+			// minutes on it.  Counted, not compared.
+			e.res.Histogram["skipped:output>1MB"]++
 			continue
 		}
-		nontrivial := feats["let"]+feats["foreach"]+feats["for-range"]+feats["call"]+feats["switch"]+feats["if"]+feats["let-content"] > 0
-		for _, d := range dataSets {
-			if os.Getenv("VERIF_TRACE") != "" {
-				fmt.Fprintf(os.Stderr, "CASE %d %v %v\n", i, files, d)
+		sr := e.m.Call("render_spec", key, sx(entry), c02Fuel, "-", "none", ";", dsx)
+		if len(sr) < 3 {
+			e.res.Fail(hx.Violation{Kind: "mismatch", What: "Spec run failed", Case: pc, Observed: fmt.Sprint(sr)}, "")
+			continue
+		}
+		scls := strings.Split(sr[0], ",")[0]
+		sout := hx.UnH(sr[2])
+		e.res.Histogram["spec:"+scls]++
+		switch scls {
+		case "ok":
+			if rerr != nil {
+				e.res.Fail(hx.Violation{Kind: "oracle", What: "the Soy semantics (Spec/Cmd.v) define an output, the implementation returns an error", Case: pc, Expected: hx.Q(sout), Observed: errStr(rerr)}, "")
+			} else if sout != out {
+				e.res.Fail(hx.Violation{Kind: "oracle", What: "rendered output differs from the text the Soy semantics (Spec/Cmd.v) define", Case: pc, Expected: hx.Q(sout), Observed: hx.Q(out)}, "")
 			}
-			out, rerr := render(tofu, entry, d, nil)
-			dsx := valueSexp(d, ids)
-			e.res.Count(fmt.Sprint(files)+dsx, nontrivial, "render")
-			for f := range feats {
-				e.res.Histogram["feat:"+f]++
+		case "err":
+			if rerr == nil {
+				e.res.Fail(hx.Violation{Kind: "oracle", What: "the Soy semantics (Spec/Cmd.v) define an error, the implementation renders", Case: pc, Expected: "error: " + sr[0], Observed: hx.Q(out)}, "")
+			} else if sout != out {
+				e.res.Fail(hx.Violation{Kind: "mismatch", What: "output before the error differs from the Spec", Case: pc, Expected: hx.Q(sout), Observed: hx.Q(out)}, "")
 			}
-			pc := progCase{Files: files, Template: entry, Data: dsx}
-			if i%57 == 0 {
-				e.res.Sample(map[string]interface{}{"files": files, "template": entry, "data": dsx, "output": hx.Q(out), "error": errStr(rerr)})
+		case "outofmodel":
+		case "crash":
+			if !strings.Contains(sr[0], hex.EncodeToString([]byte("not modelled"))) {
+				e.res.Fail(hx.Violation{Kind: "mismatch", What: "Spec outcome " + sr[0], Case: pc, Observed: hx.Q(out)}, "")
 			}
-			if isPanicErr(rerr) {
-				e.res.Fail(hx.Violation{Kind: "oracle", What: "panic escaped Render", Case: pc, Observed: errStr(rerr)}, "")
-				continue
+		default:
+			e.res.Fail(hx.Violation{Kind: "mismatch", What: "Spec outcome " + sr[0], Case: pc, Observed: hx.Q(out)}, "")
+		}
+		// ---- the correspondence: Go code vs the model the theorem is about ----
+		r := e.m.Call("render", key, sx(entry), c02Fuel, "none", "none", "-", "none", ";", dsx)
+		if len(r) < 5 {
+			e.res.Fail(hx.Violation{Kind: "mismatch", What: "model render failed", Case: pc, Observed: fmt.Sprint(r)}, "")
+			continue
+		}
+		cls := strings.Split(r[0], ",")[0]
+		var mo strings.Builder
+		for _, f := range r[5:] {
+			mo.WriteString(hx.UnH(f))
+		}
+		// exec_impl_spec, re-checked on this case by running both extracted functions
+		if r[0] != sr[0] || mo.String() != sout {
+			e.res.Fail(hx.Violation{Kind: "mismatch", What: "extracted model and extracted Spec disagree (exec_impl_spec says they cannot)", Case: pc, Expected: sr[0] + " " + hx.Q(sout), Observed: r[0] + " " + hx.Q(mo.String())}, "")
+		}
+		switch cls {
+		case "outofmodel":
+			e.res.Histogram["outofmodel"]++
+		case "ok":
+			if rerr != nil {
+				e.res.Fail(hx.Violation{Kind: "mismatch", What: "implementation returns an error, model renders", Case: pc, Expected: hx.Q(mo.String()), Observed: errStr(rerr)}, "")
+			} else if mo.String() != out {
+				e.res.Fail(hx.Violation{Kind: "mismatch", What: "rendered output differs from the model", Case: pc, Expected: hx.Q(mo.String()), Observed: hx.Q(out)}, "")
 			}
-			r := e.m.Call("render", key, sx(entry), "#4000", "none", "none", "-", "none", ";", dsx)
-			if len(r) < 5 {
-				e.res.Fail(hx.Violation{Kind: "mismatch", What: "model render failed", Case: pc, Observed: fmt.Sprint(r)}, "")
-				continue
+		case "err":
+			if rerr == nil {
+				e.res.Fail(hx.Violation{Kind: "mismatch", What: "model reports a render error, implementation renders", Case: pc, Expected: "error: " + strings.Join(strings.Split(r[0], ",")[1:], ","), Observed: hx.Q(out)}, "")
+			} else if mo.String() != out {
+				e.res.Fail(hx.Violation{Kind: "mismatch", What: "output before the error differs from the model", Case: pc, Expected: hx.Q(mo.String()), Observed: hx.Q(out)}, "")
 			}
-			cls := strings.Split(r[0], ",")[0]
-			var mo strings.Builder
-			for _, f := range r[5:] {
-				mo.WriteString(hx.UnH(f))
+		case "crash":
+			if strings.Contains(r[0], hex.EncodeToString([]byte("not modelled"))) {
+				e.res.Histogram["not-modelled"]++
+				break
 			}
-			switch cls {
-			case "outofmodel":
-				e.res.Histogram["outofmodel"]++
-			case "ok":
-				if rerr != nil {
-					e.res.Fail(hx.Violation{Kind: "mismatch", What: "implementation returns an error, model renders", Case: pc, Expected: hx.Q(mo.String()), Observed: errStr(rerr)}, "")
-				} else if mo.String() != out {
-					e.res.Fail(hx.Violation{Kind: "mismatch", What: "rendered output differs from the model", Case: pc, Expected: hx.Q(mo.String()), Observed: hx.Q(out)}, "")
-				}
-			case "err":
-				if rerr == nil {
-					e.res.Fail(hx.Violation{Kind: "mismatch", What: "model reports a render error, implementation renders", Case: pc, Expected: "error: " + strings.Join(strings.Split(r[0], ",")[1:], ","), Observed: hx.Q(out)}, "")
-				} else if mo.String() != out {
-					e.res.Fail(hx.Violation{Kind: "mismatch", What: "output before the error differs from the model", Case: pc, Expected: hx.Q(mo.String()), Observed: hx.Q(out)}, "")
-				}
-			case "crash":
-				if strings.Contains(r[0], hex.EncodeToString([]byte("not modelled"))) {
-					e.res.Histogram["not-modelled"]++
-					break
-				}
-				e.res.Fail(hx.Violation{Kind: "mismatch", What: "model outcome " + r[0], Case: pc, Observed: hx.Q(out)}, "")
-			default:
-				e.res.Fail(hx.Violation{Kind: "mismatch", What: "model outcome " + r[0], Case: pc, Observed: hx.Q(out)}, "")
-			}
+			e.res.Fail(hx.Violation{Kind: "mismatch", What: "model outcome " + r[0], Case: pc, Observed: hx.Q(out)}, "")
+		default:
+			e.res.Fail(hx.Violation{Kind: "mismatch", What: "model outcome " + r[0], Case: pc, Observed: hx.Q(out)}, "")
 		}
 	}
-	e.res.Histogram["compile-errors"] = compileFail
-	_ = data.Null{}
+}
+
+// c02Replay re-runs exactly the case of a replay file.
+func c02Replay(e *env) {
+	bs, err := os.ReadFile(e.replay)
+	if err != nil {
+		e.res.Note("cannot read replay file: %v", err)
+		return
+	}
+	var rp struct {
+		Case progCase `json:"case"`
+	}
+	if err := json.Unmarshal(bs, &rp); err != nil || len(rp.Case.Files) == 0 {
+		e.res.Note("replay file has no C02 case: %v", err)
+		return
+	}
+	var ds []data.Map
+	if rp.Case.Data != "" {
+		v, err := sexpToValue(rp.Case.Data, map[int]data.Value{})
+		if err != nil {
+			e.res.Note("cannot decode the replay data: %v", err)
+			return
+		}
+		if m, ok := v.(data.Map); ok {
+			ds = append(ds, m)
+		} else {
+			ds = append(ds, data.Map{})
+		}
+	}
+	c02Bundle(e, rp.Case.Files, rp.Case.Template, ds, map[string]int{"let": 1}, true)
 }
